@@ -96,23 +96,29 @@ func (m *txSortedMap) Forward(threshold uint64) types.Transactions {
 	return removed
 }
 
-// try to replace a big nonce tx to a small nonce tx
-func (m *txSortedMap) TryReplace(tx *types.Transaction) bool {
+// try to replace a big nonce tx to a small nonce tx; the displaced transaction is returned so that
+// the caller can forget it altogether
+func (m *txSortedMap) TryReplace(tx *types.Transaction) (*types.Transaction, bool) {
 	if m.index.Len() <= 0 {
-		return false
+		return nil, false
 	}
 
 	maxNonce := m.MaxNonce()
 	if maxNonce <= tx.Nonce() {
-		return false
+		return nil, false
+	}
+	// nothing is displaced for a transaction that cannot be inserted
+	if _, exist := m.items[tx.Nonce()]; exist {
+		return nil, false
 	}
 
 	// get a minor nonce, delete old one and add minor.
+	displaced := m.items[maxNonce]
 	m.Remove(maxNonce)
 	if err := m.Add(tx); err != nil {
-		return false
+		return nil, false
 	}
-	return true
+	return displaced, true
 }
 
 // return max nonce in txSortedMap, call from empty m will cause a panic.
